@@ -337,6 +337,9 @@ class Compiler:
         # Sanity checks.
         if indexes[0] == indexes[1]:
             raise CompilationError('the two PIVOT BY columns cannot be the same column')
+        for index in indexes:
+            if not issubclass(targets[index].c_expr.dtype, collections.abc.Hashable):
+                raise CompilationError('PIVOT BY a non-hashable type is not supported')
         if group_indexes is None or indexes[1] not in group_indexes:
             raise CompilationError('the second PIVOT BY column must be a GROUP BY column')
 
